@@ -517,13 +517,46 @@ def init_assignments(src, clsname):
                     arg = v.args[0].value if v.args and isinstance(v.args[0], pyast.Constant) else ""
                     out.append({"fn": v.func.attr, "ids": ids, "names": _split_names(arg)})
                 if isinstance(t, pyast.Attribute) and t.attr == "eqs" and isinstance(v, pyast.List):
-                    eqs = [pyast.get_source_segment(src, el) for el in v.elts]
+                    eqs = split_list_text(pyast.get_source_segment(src, v))
                 if isinstance(t, pyast.Attribute) and t.attr in ("x", "v", "c", "p", "u", "y") and \
                         isinstance(v, pyast.Call) and isinstance(v.func, pyast.Attribute) and v.func.attr == "Matrix" \
                         and v.args and isinstance(v.args[0], pyast.List):
                     matrices[t.attr] = [pyast.get_source_segment(src, el) for el in v.args[0].elts]
     init_assignments.matrices = matrices
     return out, eqs
+
+
+def split_list_text(seg):
+    """Element texts of the source of a list display `[e1, e2, ...]` (split at the top-level commas by
+    CPython's tokenizer; parentheses that open an element stay with it)."""
+    lines = seg.split("\n")
+    starts = [0]
+    for ln in lines:
+        starts.append(starts[-1] + len(ln) + 1)
+    off = lambda pos: starts[pos[0] - 1] + pos[1]
+    depth, cur, out = 0, None, []
+    for t in tokenize.generate_tokens(io.StringIO(seg).readline):
+        if t.type in (tokenize.NL, tokenize.NEWLINE, tokenize.COMMENT, tokenize.INDENT, tokenize.DEDENT, tokenize.ENDMARKER):
+            continue
+        if t.string in "([{" and t.type == tokenize.OP:
+            depth += 1
+            if depth == 1:
+                cur = None
+                continue
+        elif t.string in ")]}" and t.type == tokenize.OP:
+            depth -= 1
+            if depth == 0:
+                if cur is not None:
+                    out.append(seg[cur[0]:cur[1]])
+                break
+        elif t.string == "," and t.type == tokenize.OP and depth == 1:
+            if cur is not None:
+                out.append(seg[cur[0]:cur[1]])
+            cur = None
+            continue
+        if depth >= 1:
+            cur = (off(t.start), off(t.end)) if cur is None else (cur[0], off(t.end))
+    return out
 
 
 def eq_lines(src):
@@ -543,6 +576,37 @@ def eq_lines(src):
             elif s:
                 out.append(s)
     return out
+
+
+def eq_texts(src, clsname):
+    """The source text of every element of `self.eqs`, through CPython's ast when the module parses
+    (independent of the template's line layout), else from the raw lines."""
+    try:
+        _, eqs = init_assignments(src, clsname)
+    except SyntaxError:
+        eqs = None
+    return eqs if eqs is not None else eq_lines(src)
+
+
+def raw_tokens(text):
+    """CPython's token strings of a piece of source, without whitespace, line structure and comments
+    (None if the tokenizer rejects it)."""
+    skip = (tokenize.NEWLINE, tokenize.NL, tokenize.ENDMARKER, tokenize.INDENT, tokenize.DEDENT, tokenize.COMMENT)
+    try:
+        return [t.string for t in tokenize.generate_tokens(io.StringIO(text).readline) if t.type not in skip]
+    except (tokenize.TokenError, SyntaxError, IndentationError):
+        return None
+
+
+def same_tokens(a, b):
+    """Equal as Python token streams (layout and comments ignored); falls back to the texts without
+    blanks where the tokenizer gives up."""
+    if a is None or b is None:
+        return a == b
+    ta, tb = raw_tokens(a), raw_tokens(b)
+    if ta is None or tb is None:
+        return "".join(a.split()) == "".join(b.split())
+    return ta == tb
 
 
 # ---- CPython tokens / tree in the vocabulary of the Lean model --------------------------------
